@@ -165,6 +165,7 @@ def run(chk):
     chk.extra["bodies_in_scope"] = len(scope)
     allow = load_allow()
     allow_used = {}
+    open_sites = []
 
     def allowed(fn, what, own=None):
         for i, r in enumerate(allow):
@@ -473,7 +474,21 @@ def run(chk):
                 wit += " [caller precondition: %s]" % init_desc
             key = "%s|%s|%s" % (rule.split()[0], fn, what)
             chk.ob(rule, key, ok, where(b, bb), wit + ("" if ok else " — reachable from a public decoder: %s" % entry_of(p, entries, b)))
+            if not ok:
+                open_sites.append((b, key))
     chk.extra["sites"] = n_sites
+    # A site that stays open (a finding, known or new) is keyed by the function it sits in.  Every *other* decoder in scope
+    # that calls that function is a further way to reach it — a different input, hence a different finding: one obligation
+    # per (caller, open site).  On a tree where nothing calls a function with an open site the rule has no instances.
+    for ob_, key_ in open_sites:
+        for path_ in sorted(scope):
+            cb_ = scope[path_]
+            if cb_.root == ob_.root:
+                continue
+            for bb_, t_ in cb_.calls():
+                if any(x is ob_ or x.path == ob_.path for x in p.local_callee_bodies(t_) + p.instantiated_callee_bodies(t_)):
+                    chk.ob("P1 panic sites", "P1-reach|%s|%s" % (api_name(cb_), key_.split("|", 1)[1]), False, where(cb_, bb_),
+                           "calls %s, which has an open panic site (%s): every input that gets here with an argument outside that function's domain crashes the decoder — reachable from %s" % (api_name(ob_), key_, entry_of(p, entries, cb_)))
     # unused allow rows are reported (stale table), not failed
     for i, r in enumerate(allow):
         if i not in allow_used:
